@@ -3,6 +3,7 @@ package checks
 import (
 	"fmt"
 	"sort"
+	"strings"
 
 	"github.com/verily-src/fhirpath-go/fhirpath"
 	"github.com/verily-src/fhirpath-go/fhirpath/compopts"
@@ -40,14 +41,42 @@ var c07SingleArg = map[string][]bool{
 
 func c07Env() map[string]any { return map[string]any{"e": system.Collection{}} }
 
+// c07Rebound: the empty collection supplied through %e must propagate whatever
+// the same compiled expression saw in %e before, and a value supplied after the
+// empty binding must give what a freshly compiled expression gives for it.
+func c07Rebound(r *core.Rec, key, src string, fresh lib.Res, input func() []fhir.Resource, copts ...fhirpath.CompileOption) {
+	if !strings.Contains(src, "%e") || fresh.CompileErr != nil || fresh.Panic != nil {
+		return
+	}
+	for _, w := range []struct {
+		name string
+		v    any
+	}{{"Integer", system.Integer(0)}, {"String", system.String("a")}, {"Boolean", system.Boolean(true)}} {
+		c := lib.Compile(src, copts...)
+		first := lib.EvalOpts(c, input(), lib.EnvOpts(map[string]any{"e": w.v})...)
+		second := lib.EvalOpts(c, input(), lib.EnvOpts(c07Env())...)
+		c2 := lib.Compile(src, copts...)
+		lib.EvalOpts(c2, input(), lib.EnvOpts(c07Env())...)
+		again := lib.EvalOpts(c2, input(), lib.EnvOpts(map[string]any{"e": w.v})...)
+		r.AddEvals(4)
+		r.State("rebound|" + w.name)
+		if second.String() != fresh.String() {
+			r.Fail("rebinding|"+key+"|empty-after-"+w.name+"|differs-from-fresh-expression", core.W{"src": src, "first_binding": w.name, "then_empty_gives": second.String(), "fresh_expression_gives": fresh.String()})
+		}
+		if again.String() != first.String() {
+			r.Fail("rebinding|"+key+"|"+w.name+"-after-empty|differs-from-fresh-expression", core.W{"src": src, "binding": w.name, "after_empty_gives": again.String(), "fresh_expression_gives": first.String()})
+		}
+	}
+}
+
 func init() {
 	binops := []string{"+", "-", "*", "/", "div", "mod", "<", "<=", ">", ">=", "=", "!=", "&"}
 	others := []string{"1", "1.5", "'a'", "@2020-01-01", "@2020-01-01T10:00:00Z", "@T10:00", "1 'mg'", "true", "Patient.name.first()", "Patient.name"}
 	input := func() []fhir.Resource { return []fhir.Resource{lib.Patient()} }
 
 	core.Register(&core.Check{
-		ID:   "C07",
-		Rule: "complete enumeration: every binary operator x operand position x 3 empty sources x 10 typed other operands (and both-empty); unary/type/indexer operators; every function-table name (read from the tree) x every arity Compile accepts x every position holding the empty collection with the other positions well-typed; non-trivial = distinct (program, outcome)",
+		ID:          "C07",
+		Rule:        "complete enumeration: every binary operator x operand position x 3 empty sources x 10 typed other operands (and both-empty); unary/type/indexer operators; every function-table name (read from the tree) x every arity Compile accepts x every position holding the empty collection with the other positions well-typed; every program that takes the empty collection from %e is also evaluated on one compiled expression after %e was bound to an Integer, a String and a Boolean (and those after the empty binding), with the freshly compiled expression as reference; non-trivial = distinct (program, outcome)",
 		Assumptions: []string{"well-typed companion arguments come from the specification signature table of C16"},
 		Subs: func(tier string) []core.Sub {
 			tbl := funcs.AddExperimentalFuncs(funcs.Clone())
@@ -62,6 +91,7 @@ func init() {
 					check := func(src, pos, other string) {
 						res := lib.Run(src, input(), c07Env())
 						r.Eval()
+						c07Rebound(r, "op|"+op+"|"+pos, src, res, input)
 						r.State(op + "|" + pos + "|" + es.name)
 						r.Outcome(op + "|" + res.Class())
 						r.Nontrivial(src, res.Class())
@@ -117,6 +147,7 @@ func init() {
 					for _, p := range progs {
 						res := lib.Run(p.src, input(), c07Env())
 						r.Eval()
+						c07Rebound(r, "op|"+p.name, p.src, res, input)
 						r.State(p.name + "|" + es.name)
 						r.Outcome(p.name + "|" + res.Class())
 						r.Nontrivial(p.src, res.Class())
@@ -163,6 +194,7 @@ func init() {
 								src := callSrc(recv, name, args)
 								res := lib.Run(src, input(), c07Env(), copts...)
 								r.Eval()
+								c07Rebound(r, fmt.Sprintf("fn|%s|arity=%d|%s", name, n, posName), src, res, input, copts...)
 								r.State(fmt.Sprintf("fn|%s|%d|%s|%s", name, n, posName, es.name))
 								r.Outcome(name + "|" + res.Class())
 								r.Nontrivial(src, res.Class())
